@@ -179,6 +179,9 @@ func (h *H) emitDecSeq(seq ansi.Sequence, spec string, class string, keep bool) 
 	u.addKey(k)
 	h.r.Emit(fmt.Sprintf("dec %s %s %s", u.tok(), st, spec), res)
 	h.r.Count("dec:" + class)
+	if c, ok := seq.(ansi.CSI); ok {
+		h.countParams(c)
+	}
 	if keep && res != "panic" {
 		h.keys = append(h.keys, k)
 	}
@@ -447,11 +450,61 @@ func (h *H) decodeStreams() {
 		sb.WriteByte(gen.Pick(rng, csiFinals))
 		h.emitDec(sb.String(), "-", "csi-fuzz", i%50 == 0)
 	}
+	// huge decimal parameters: the real parser accumulates them in a Go int, which wraps silently at
+	// 2^63 / 2^64 ("18446744073709551713" arrives as 97); rune(p) then truncates to 32 bits.
+	// (Not generated: a modifier / event parameter of exactly -2^63, where Go's `pm[0]-1` itself wraps.)
+	for _, in := range []string{"\x1b[4294967393u", "\x1b[2147483648u", "\x1b[2147483647u", "\x1b[4294967295u", "\x1b[4294967296u", "\x1b[9223372036854775807u",
+		"\x1b[18446744073709551713u", "\x1b[18446744073709551615u", "\x1b[99999999999999999999999u", "\x1b[97:4294967361:8589934689;4294967298u",
+		"\x1b[97;18446744073709551618u", "\x1b[97;9223372036854775807:9223372036854775807u", "\x1b[97;1;4294967393:18446744073709551713u",
+		"\x1b[27;5;4294967393~", "\x1b[4294967297Z", "\x1b[4294967298~", "\x1b[97;1;2147483648:4294967295u"} {
+		h.emitDec(in, "-", "csi-huge", false)
+	}
+	for _, ps := range [][][]int{{{-5}, {-3, -2}, {-1}}, {{-4294967199}}, {{97}, {-9223372036854775807}}, {{-2147483649, -1, -2147483648}},
+		{{97, 65}, {2, -7}, {-4294967231, 65}, {5}, {6}}, {{27}, {0}, {-4294967199}}} {
+		h.emitDecSeq(ansi.CSI{Final: 'u', Parameters: ps}, "-", "csi-negative-handmade", false)
+		h.emitDecSeq(ansi.CSI{Final: '~', Parameters: ps}, "-", "csi-negative-handmade", false)
+	}
 	// hand-made sequences the parser never produces (empty sub-parameter lists)
 	h.emitDecSeq(ansi.CSI{Final: 'u', Parameters: [][]int{{}, {}, {}}}, "-", "csi-handmade", false)
 	h.emitDecSeq(ansi.CSI{Final: '~', Parameters: [][]int{{27}, {5}, {}}}, "-", "csi-handmade", false)
 	h.emitDecSeq(ansi.CSI{Final: 'u', Parameters: [][]int{{97, 65, 98, 99}, {0, 0, 7}, {65}, {1}}}, "-", "csi-handmade", false)
 	h.emitDecSeq(ansi.Print{Grapheme: ""}, "-", "print-handmade", false)
+}
+
+// countParams records which magnitudes of CSI parameters the dec stream exercised (Props/C09Uni
+// decode_csi_total is over all of Z; the correspondence covers these regions).
+func (h *H) countParams(c ansi.CSI) {
+	seen := map[string]bool{}
+	for i, pm := range c.Parameters {
+		pos := "other"
+		switch i {
+		case 0:
+			pos = "codes"
+		case 1:
+			pos = "mods"
+		case 2:
+			pos = "text"
+		}
+		for _, v := range pm {
+			switch {
+			case v < 0:
+				seen["dec-csi-param<0:"+pos] = true
+			case v >= 1<<32:
+				seen["dec-csi-param>=2^32:"+pos] = true
+			case v >= 1<<31:
+				seen["dec-csi-param>=2^31:"+pos] = true
+			}
+		}
+		if len(pm) == 0 {
+			seen["dec-csi-empty-sub-parameter-list"] = true
+		}
+	}
+	if len(c.Parameters) > 3 {
+		seen["dec-csi-more-than-3-parameters"] = true
+	}
+	for k := range seen {
+		h.r.Count(k)
+	}
 }
 
 func allKeyNames() []string {
@@ -773,6 +826,7 @@ func run(r *hx.Run) error {
 	}
 	h.decodeStreams()
 	h.crossStreams()
+	h.uniStreams()
 	h.matchStreams()
 	return nil
 }
